@@ -114,6 +114,21 @@ def call(case, grid, ds, nm, lazy):
                                         dask="allowed" if core_chunked else "parallelized",
                                         map_overlap=bool(case["map_overlap"]) and lazy and core_chunked,
                                         **{k: v for k, v in kw.items() if k != "to"})
+    if kind == "ufunc_two":
+        # a user function of TWO inputs along one core dimension; the second input has the first one's dimensions or
+        # only the core dimension (a profile broadcast against a field)
+        b = model.make_array(a["second"], nm, ds, name="v2")
+        if lazy:
+            b = b.chunk({d: chunks[d] for d in b.dims})
+
+        def stencil_two(x, y):
+            return (x[..., 2:] - x[..., :-2]) + (y[..., 2:] + y[..., :-2])
+
+        dim = nm(case["core_dims"][0])
+        core_chunked = len(chunks[dim]) > 1
+        return grid.apply_as_grid_ufunc(stencil_two, da, b, axis=[(axis[0],), (axis[0],)], signature="(X:center),(X:center)->(X:center)",
+                                        boundary_width={"X": (1, 1)}, dask="allowed" if core_chunked else "parallelized",
+                                        map_overlap=lazy and core_chunked, **{k: v for k, v in kw.items() if k != "to"})
     if kind == "ufunc2":
         # a user function over TWO core dimensions; the widths are keyed by the signature's dummy names, listed
         # in either order or for one axis only
@@ -263,6 +278,23 @@ def gen_cases(rng, thorough):
                 bw2 = [rng.choice(bw2)]
             spec = [[d, rng.choice(compositions(L))] for d, L in ds_]
             cases += with_chunks(rng, b, "ufunc2", [spec], bw2=bw2)
+    # user ufunc of two inputs (same rank, or a profile against a field)
+    for _ in range(nbase // 3):
+        n1 = rng.randint(3, 5)
+        ex = [["d9", rng.randint(1, 2)]]
+        g = {"axes": [{"name": "a1", "n": n1, "pos": [["center", "d1"], ["left", "d2"]]}], "extra": ex, "ctor": gen.rand_ctor(rng, ["a1"])}
+        ds_ = [["d1", n1]] + ex
+        rng.shuffle(ds_)
+        same = rng.random() < 0.5
+        second = gen.rand_data(rng, ds_ if same else [["d1", n1]])
+        b = {"grid": g, "args": {"data": gen.rand_data(rng, ds_), "second": second, "axis": ["a1"], "to": NONE,
+                                 "boundary": gen.rand_tagged(rng, ["a1"], gen.RULES, partial=True),
+                                 "fill_value": gen.rand_tagged(rng, ["a1"], [-3, 0, 2], partial=True)},
+             "core_dims": ["d1"], "same_rank": same}
+        for _ in range(2):
+            comp = [c for c in compositions(n1) if min(c) >= 2] or [[n1]]
+            spec = [[d, (rng.choice(comp) if d == "d1" else rng.choice(compositions(L)))] for d, L in ds_]
+            cases += with_chunks(rng, b, "ufunc_two", [spec])
     # face-connected grids chunked over the face and extra dims (never the two spatial dims)
     for _ in range(nbase):
         vec = rng.random() < 0.4
@@ -333,7 +365,7 @@ def run(ctx):
             ctx.reject(classify(r, bad[r["id"]]), f"spec rejects record: {bad[r['id']]}", r)
     ctx.evaluations = len(recs)
     ctx.extra["refusals_observed"] = refused
-    ctx.extra["records_by_kind"] = {k: sum(1 for r in recs if r["kind"] == k) for k in ("op", "weighted", "metric", "ufunc", "ufunc2", "face", "vecplain")}
+    ctx.extra["records_by_kind"] = {k: sum(1 for r in recs if r["kind"] == k) for k in ("op", "weighted", "metric", "ufunc", "ufunc2", "ufunc_two", "face", "vecplain")}
 
     def corrupt(r):
         if r["out"]["k"] != "array" or r["eager"]["k"] != "array":
